@@ -40,26 +40,35 @@ def main():
     ids = sys.argv[1:] or sorted(d for d in os.listdir(os.path.join(HERE, 'seeded')) if os.path.isdir(os.path.join(HERE, 'seeded', d)))
     seeds = [int(s) for s in os.environ.get('SEEDS', '1').split()]
     rows = []
+    render_only = bool(os.environ.get('RENDER'))       # RENDER=1: no runs, write seeded.md from all meta.json files
     for sid in ids:
+        if render_only:
+            m = json.load(open(os.path.join(HERE, 'seeded', sid, 'meta.json')))
+            rows.append((sid, m.get('title', ''), m['results'], m['killed_by']))
+            continue
         d = os.path.join(HERE, 'seeded', sid)
         patch = os.path.join(d, 'patch.diff')
         prop = re.match(r'(C\d+)', sid).group(1)
         note = open(os.path.join(d, 'note.md')).read() if os.path.exists(os.path.join(d, 'note.md')) else ''
         title = note.splitlines()[0].lstrip('# ').strip() if note else ''
-        res = {}
-        for pid in REL[prop]:
+        meta_path = os.path.join(d, 'meta.json')
+        meta = json.load(open(meta_path)) if os.path.exists(meta_path) else {}
+        # OWN=1: re-run only the property's own check and keep the recorded outcomes of the other checks (final refresh)
+        res = {pid: r for pid, r in meta.get('results', {}).items() if pid in REL[prop]} if os.environ.get('OWN') else {}
+        for pid in ([prop] if os.environ.get('OWN') else REL[prop]):
             outs = [run(patch, pid, s) for s in seeds]
             res[pid] = {'outcome_per_seed': {str(s): o[0] for s, o in zip(seeds, outs)},
                         'first_violation': next((o[1] for o in outs if o[0] == 'killed'), '')}
+        for pid in REL[prop]:
+            res.setdefault(pid, {'outcome_per_seed': {}, 'first_violation': ''})
         killed_by = [pid for pid, r in res.items() if any(v == 'killed' for v in r['outcome_per_seed'].values())]
-        meta_path = os.path.join(d, 'meta.json')
-        meta = json.load(open(meta_path)) if os.path.exists(meta_path) else {}
         meta.update({
             'id': sid, 'breaks_property': prop, 'title': title,
             'needs_to_manifest': 'see note.md (written by the author of the change, who had no access to /verif)',
             'confirmed': 'tools/confirm_seed.sh seeded/%s/patch.diff seeded/%s/demo.py: patch applies to /repo HEAD in a scratch worktree, '
                          '`pytest algopy` unchanged (385 passed, 2 skipped), demo exits 1 with the change and 0 without it' % (sid, sid),
-            'ran': ['VERIF_NO_REPLAY=1 VERIF_SEED=%s tools/mutant_run.sh seeded/%s/patch.diff %s quick' % (s, sid, pid) for pid in REL[prop] for s in seeds],
+            'ran': sorted(set(meta.get('ran', []) + ['VERIF_NO_REPLAY=1 VERIF_SEED=%s tools/mutant_run.sh seeded/%s/patch.diff %s quick' % (s, sid, pid)
+                                                     for pid in ([prop] if os.environ.get('OWN') else REL[prop]) for s in seeds])),
             'results': res, 'killed_by': killed_by,
         })
         json.dump(meta, open(meta_path, 'w'), indent=1)
@@ -68,14 +77,14 @@ def main():
     os.makedirs(os.path.join(HERE, 'notes', 'killmatrix'), exist_ok=True)
     with open(os.path.join(HERE, 'notes', 'killmatrix', 'seeded.md'), 'w') as f:
         f.write('# Seeded changes (written by independent sub-agents without access to /verif) vs the quick tier\n\n')
-        f.write('Generated search only (`VERIF_NO_REPLAY=1`), VERIF_SEED in %s.  k = killed, s = survived.\n\n' % seeds)
+        f.write('Generated search only (`VERIF_NO_REPLAY=1`), one letter per VERIF_SEED value tried (own check: %s; other checks: as recorded when the seed was first run, usually 1 and 2).  k = killed, s = survived, ? = patch failed / harness error, - = not run.\n\n' % seeds)
         f.write('| seed | change | own check | other checks |\n|---|---|---|---|\n')
         for sid, title, res, kb in rows:
             prop = re.match(r'(C\d+)', sid).group(1)
 
             def cell(pid):
                 o = res[pid]['outcome_per_seed']
-                return '%s:%s' % (pid, ''.join('k' if v == 'killed' else ('s' if v == 'survived' else '?') for v in o.values()))
+                return '%s:%s' % (pid, ''.join('k' if v == 'killed' else ('s' if v == 'survived' else '?') for v in o.values()) or '-')
             f.write('| %s | %s | %s | %s |\n' % (sid, title.replace('|', '/')[:110], cell(prop), ' '.join(cell(p) for p in REL[prop] if p != prop)))
     print('written notes/killmatrix/seeded.md')
 
